@@ -54,6 +54,7 @@ def run(ctx):
   interp_knots(ctx)
   adjust(ctx, tp)
   redundant_means_restating(ctx)
+  map_applied_to_every_event(ctx)
   concat(ctx)
   repeat(ctx)
 
@@ -719,6 +720,33 @@ def repeat_passes_through_concat(ctx, fi):
            'duplicate metadata that a concatenation of one piece drops, so the result is not "the concatenation of enough copies cut at the duration"' % (
                norm_text(other[0]), norm_text(c.func), ', '.join(('' if p else 'not ') + norm_text(t) for t, p in U.path_conditions(fn, other[0])) or 'no condition'),
            construct='repeat: cut(concatenate(copies))', definite=True)
+
+
+def map_applied_to_every_event(ctx, rule='ADJUST/map-applied-whatever-the-time'):
+  """"adjust_notesequence_times applies the given time map to every note and event": the call of the map on an event's time may not
+  be conditional on that time (`f(t) if t > 0 else t` leaves the events at 0 where they are while the notes at 0 move)."""
+  fi = ctx.func(SL + ':adjust_notesequence_times')
+  fn = fi.node
+  fname = fi.params()[1] if len(fi.params()) > 1 else 'time_func'
+  from sa import pitfalls
+  bad = []
+  n = 0
+  for c in ast.walk(fn):
+    if not (isinstance(c, ast.Call) and isinstance(c.func, ast.Name) and c.func.id == fname and len(c.args) == 1):
+      continue
+    n += 1
+    arg = norm_text(c.args[0])
+    for t, p in pitfalls.guards_at(fn, c):
+      if pitfalls._mentions(t, arg) and isinstance(t, ast.Compare) and any(isinstance(U.const_value(x), (int, float)) for x in [t.left] + t.comparators):
+        bad.append((c, t, p))
+  cons = 'adjust_notesequence_times maps every time, whatever its value'
+  if n == 0:
+    why = 'cannot classify: no call of the time map %s(<time>) found' % fname
+    ctx.ob(rule, fi, fn, False, why, construct=cons, unknown=why)
+    return
+  ctx.ob(rule, fi, bad[0][0] if bad else fn, not bad, '%d applications of the map, none conditional on the time it maps' % n if not bad else
+         '%s is applied only when %s%s: a time for which that is false is left unmapped, so events there do not move with the notes (and a map that sends them below zero is '
+         'not rejected)' % (norm_text(bad[0][0]), '' if bad[0][2] else 'not ', norm_text(bad[0][1])), construct=cons, definite=True)
 
 
 def redundant_means_restating(ctx, rule='CONCAT/redundant-is-restating-the-predecessor'):
